@@ -11,3 +11,4 @@ import RasnModel.Props.C02
 import RasnModel.Props.C03
 import RasnModel.Props.C04
 import RasnModel.Driver.C04
+import RasnModel.Props.C15
